@@ -1045,3 +1045,384 @@ func init() {
 		},
 	})
 }
+
+// Rules added after the seventh round of independently seeded changes.
+
+func init() {
+	register(&Rule{
+		ID: "outlier.recycle-decision-atomic", Props: []string{"C20"}, Floor: 1,
+		Doc: "in Recycler.recycle the removal of the node's breaker happens inside the critical section (the recycler's mutex) in which the node's status was read as 'not recovered': a successful completion reported through recover(), which takes the same mutex, either is seen by the decision or comes after the removal, never in between",
+		Run: func(c *Ctx) {
+			f := c.P.Func("core/outlier.(*Recycler).recycle")
+			del := c.P.Func("core/outlier.deleteNodeBreakerOfResource")
+			if f == nil || del == nil {
+				c.AnchorLost("outlier Recycler.recycle / deleteNodeBreakerOfResource")
+				return
+			}
+			la := newLockAnalysis(c.P)
+			n := 0
+			for _, g := range withNewHelpers([]*ssa.Function{f}) {
+				for _, ci := range callsIn(g) {
+					if !isStaticCallTo(ci, del) {
+						continue
+					}
+					n++
+					key := fmt.Sprintf("%s / remove#%d", fnKey(f), n)
+					held := la.held(ci.(ssa.Instruction))
+					mu := ""
+					for k := range held {
+						if strings.Contains(k, "Recycler.mtx") || strings.Contains(k, "Recycler}.mtx") {
+							mu = k
+						}
+					}
+					// the status read that guards it, under the same mutex
+					readUnder := false
+					eachInstr(g, func(ins ssa.Instruction) {
+						lk, ok := ins.(*ssa.Lookup)
+						if !ok || !strings.HasSuffix(accessPath(lk.X), "Recycler}.status") {
+							return
+						}
+						if _, h := la.held(lk)[mu]; h && mu != "" && instrReaches(lk, ci.(ssa.Instruction)) {
+							readUnder = true
+						}
+					})
+					c.Check(mu != "" && readUnder, key, ci.Pos(), "the breaker is removed while the recycler's mutex is held (held here: %v) and the status was read under it (%v)", held.String(), readUnder)
+				}
+			}
+			if n == 0 {
+				c.Violate(fnKey(f)+" / remove", f.Pos(), "recycle no longer removes the node's breaker")
+			}
+		},
+	})
+}
+
+func init() {
+	register(&Rule{
+		ID: "cb.deadline-no-wrapping-arith", Props: []string{"C12", "C03"}, Floor: 1,
+		Doc: "the retry deadline loaded from nextRetryTimestampMs is compared with the clock directly; it does not enter an unsigned subtraction without a dominating guard that orders the operands (a caller whose clock sample is older than a deadline re-armed in between would read the wrapped difference as 'deadline passed' and be admitted right after the breaker opened)",
+		Run: func(c *Ctx) {
+			n := 0
+			for _, f := range c.P.FuncsIn(modPath + "/core/circuitbreaker") {
+				if isTestOrExample(f) || f.Blocks == nil {
+					continue
+				}
+				k := 0
+				for _, ci := range callsIn(f) {
+					an, ok := atomicFuncName(ci)
+					if !ok || an != "LoadUint64" || len(ci.Common().Args) != 1 {
+						continue
+					}
+					fa, ok := ci.Common().Args[0].(*ssa.FieldAddr)
+					if !ok || fieldName(fa.X.Type(), fa.Field) != "nextRetryTimestampMs" {
+						continue
+					}
+					v, ok := ci.(ssa.Value)
+					if !ok {
+						continue
+					}
+					n++
+					k++
+					bad := ""
+					seen := map[ssa.Value]bool{}
+					var walk func(x ssa.Value, d int)
+					walk = func(x ssa.Value, d int) {
+						if seen[x] || d > 6 {
+							return
+						}
+						seen[x] = true
+						for _, r := range refsOf(x) {
+							switch u := r.(type) {
+							case *ssa.Convert:
+								walk(u, d+1)
+							case *ssa.ChangeType:
+								walk(u, d+1)
+							case *ssa.Phi:
+								walk(u, d+1)
+							case *ssa.BinOp:
+								if u.Op != token.SUB {
+									continue
+								}
+								if bt, isB := u.Type().Underlying().(*types.Basic); !isB || bt.Info()&types.IsUnsigned == 0 {
+									continue
+								}
+								xs, ys := accessPath(u.X), accessPath(u.Y)
+								fs := canonFacts(u.Block())
+								if fs[ys+" <= "+xs] || fs[ys+" < "+xs] {
+									continue
+								}
+								if bad == "" {
+									bad = fmt.Sprintf("%s - %s at %s", xs, ys, c.P.Pos(u.Pos()))
+								}
+							}
+						}
+					}
+					walk(v, 0)
+					c.Check(bad == "", fmt.Sprintf("%s / deadline-load#%d", fnKey(f), k), ci.Pos(), "the loaded retry deadline is not used in an unguarded unsigned subtraction (%s)", bad)
+				}
+			}
+			if n == 0 {
+				c.AnchorLost("atomic load of circuitBreakerBase.nextRetryTimestampMs")
+			}
+		},
+	})
+}
+
+func init() {
+	register(&Rule{
+		ID: "rules.cache-follows-enforcement", Props: []string{"C13", "C14"}, Floor: 10,
+		Doc: "in every update path of a rule manager the cached last input (currentRules, what LoadRules compares a new load against to answer 'unchanged') is written only on executions that also install the enforced rules: the write is dominated by a write of an enforced map, or every path from it to a return passes through one. A load that is rejected (invalid rule, early return) must leave the cache alone, or a later load of the same input is skipped as a repeat while older rules stay in force",
+		Run: func(c *Ctx) {
+			la := &lockAnalysis{P: c.P}
+			for _, f := range c.P.ModuleFuncs() {
+				if !isTestOrExample(f) {
+					la.funcs = append(la.funcs, f)
+				}
+			}
+			for _, m := range ruleModules {
+				cur := c.P.Global(m.current)
+				if cur == nil {
+					c.AnchorLost(m.current)
+					continue
+				}
+				enfW := map[*ssa.Function][]ssa.Instruction{}
+				for _, gname := range m.enforced {
+					g := c.P.Global(gname)
+					if g == nil {
+						c.AnchorLost(gname)
+						continue
+					}
+					for _, a := range accessesOfGlobal(c.P, g, la.funcs) {
+						if a.write && !strings.HasPrefix(a.what, "inner") {
+							enfW[a.fn] = append(enfW[a.fn], a.ins)
+						}
+					}
+				}
+				k := map[*ssa.Function]int{}
+				for _, a := range accessesOfGlobal(c.P, cur, la.funcs) {
+					if !a.write || strings.HasPrefix(a.what, "inner") {
+						continue
+					}
+					f := a.fn
+					if f.Name() == "init" {
+						continue
+					}
+					k[f]++
+					key := fmt.Sprintf("%s / cache-write#%d", fnKey(f), k[f])
+					ws := enfW[f]
+					if len(ws) == 0 {
+						// the cache is kept by the caller of the update path (system.LoadRules): the update must have succeeded
+						okErr := false
+						for _, ft := range condFacts(a.ins.Block()) {
+							if bo, ok := ft.Cond.(*ssa.BinOp); ok && (isNilConst(bo.X) || isNilConst(bo.Y)) {
+								if (bo.Op == token.EQL && ft.Truth) || (bo.Op == token.NEQ && !ft.Truth) {
+									okErr = true
+								}
+							}
+						}
+						// or the function is a clearing path that writes nothing else
+						c.Check(okErr || len(returnsOf(f)) <= 1, key, a.ins.Pos(), "%s is written in a function that does not install rules itself: only after the update reported no error (%v) or in a function with a single exit", m.current, okErr)
+						continue
+					}
+					dominated := mustPrecede(a.ins, func(x ssa.Instruction) bool {
+						for _, e := range ws {
+							if e == x {
+								return true
+							}
+						}
+						return false
+					})
+					follows := false
+					if !dominated {
+						isEnf := func(x ssa.Instruction) bool {
+							for _, e := range ws {
+								if e == x {
+									return true
+								}
+							}
+							return false
+						}
+						follows, _ = allPathsHit(a.ins, isEnf, nil)
+					}
+					c.Check(dominated || follows, key, a.ins.Pos(), "%s is written only together with the enforced maps %v (every path to it passes such a write: %v; every path from it to a return passes one: %v)", m.current, m.enforced, dominated, follows)
+				}
+			}
+		},
+	})
+}
+
+func init() {
+	register(&Rule{
+		ID: "hotspot.throttle-idle-restarts-at-now", Props: []string{"C05"}, Floor: 1,
+		Doc: "in the throttling hot-parameter controller a request admitted without waiting (the value's expected pass time is not in the future) leaves the value's last-pass cell at the current time: the last value written to the cell on that path is the clock reading, not an older time plus the interval, so idle time is not banked as credit that later lets several requests through at the same instant",
+		Run: func(c *Ctx) {
+			f := c.P.Func(hsPkg + ".(*throttlingTrafficShapingController).PerformChecking")
+			if f == nil {
+				c.AnchorLost("hotspot throttling PerformChecking")
+				return
+			}
+			n := 0
+			{
+				g := f
+				{
+					for _, cs := range returnedCases(f, 0) {
+						if !isNilConst(stripConv(cs.val)) {
+							continue
+						}
+						// under a successful CAS on the time cell?
+						var cas *ssa.Call
+						for _, ft := range append(append([]Fact{}, condFacts(cs.block)...), cs.extra...) {
+							call, ok := ft.Cond.(*ssa.Call)
+							if !ok || !ft.Truth {
+								continue
+							}
+							if an, isAt := atomicFuncName(call); isAt && an == "CompareAndSwapInt64" {
+								cas = call
+							}
+						}
+						if cas == nil {
+							continue
+						}
+						n++
+						key := fmt.Sprintf("%s / pass-now#%d", fnKey(f), n)
+						last := cas.Call.Args[2]
+						// a later store into the same cell on this path
+						for _, ci := range callsIn(g) {
+							if an, isAt := atomicFuncName(ci); isAt && an == "StoreInt64" && sameValue(ci.Common().Args[0], cas.Call.Args[0]) {
+								if instrDominates(cas, ci.(ssa.Instruction)) && ci.Block().Dominates(cs.block) {
+									last = ci.Common().Args[1]
+								}
+							}
+						}
+						lv := stripConv(resolve(last))
+						call, isCall := lv.(*ssa.Call)
+						okNow := isCall && strings.Contains(accessPath(call), "CurrentTimeMillis()")
+						c.Check(okNow, key, cs.block.Instrs[len(cs.block.Instrs)-1].Pos(), "the request passes at once and the last value written to the value's time cell on that path is %s (want the clock reading)", accessPath(last))
+					}
+				}
+			}
+			if n == 0 {
+				c.AnchorLost("hotspot throttling: a `pass at once` return under a successful CompareAndSwapInt64")
+			}
+		},
+	})
+}
+
+func init() {
+	register(&Rule{
+		ID: "warmup.balance-not-negative", Props: []string{"C11"}, Floor: 1,
+		Doc: "the warm-up calculator never leaves a negative token balance in storedTokens: a value published into it is a constant >= 0, the result of the refill computation, or a difference whose non-negativity a dominating comparison establishes, and a subtraction applied in place (atomic add of a non-constant or negative delta) is followed, on the branch where its result is below zero, by a reset to 0 on every path. A negative balance is a debt the idle refill must first pay off, so the rule would restart at the full threshold instead of cold",
+		Run: func(c *Ctx) {
+			n := 0
+			isCell := func(addr ssa.Value) bool {
+				fa, ok := addr.(*ssa.FieldAddr)
+				return ok && fieldName(fa.X.Type(), fa.Field) == "storedTokens" && typeIs(fa.X.Type(), "core/flow", "WarmUpTrafficShapingCalculator")
+			}
+			var okValue func(v ssa.Value, b *ssa.BasicBlock, extra []Fact, d int) (bool, string)
+			okValue = func(v ssa.Value, b *ssa.BasicBlock, extra []Fact, d int) (bool, string) {
+				if d > 3 {
+					return false, "too deep"
+				}
+				for _, cs := range splitPhiCases(stripConv(v), b, extra, 0) {
+					x := stripConv(resolve(cs.val))
+					if k, isK := constInt(x); isK {
+						if k < 0 {
+							return false, fmt.Sprintf("constant %d", k)
+						}
+						continue
+					}
+					switch y := x.(type) {
+					case *ssa.Call:
+						if cal := y.Call.StaticCallee(); cal != nil && inModule(fnPkgPath(cal)) {
+							continue // the refill computation (bounded below by the old balance)
+						}
+						return false, accessPath(x)
+					case *ssa.BinOp:
+						if y.Op == token.SUB {
+							fs := canonFacts(cs.block, cs.extra...)
+							xs, ys, ps := accessPath(y.X), accessPath(y.Y), accessPath(y)
+							if fs[ys+" <= "+xs] || fs[ys+" < "+xs] || fs["0 <= "+ps] || fs["0 < "+ps] {
+								continue
+							}
+							return false, ps + " (no dominating comparison shows it is not negative)"
+						}
+						return false, accessPath(x)
+					default:
+						return false, accessPath(x)
+					}
+				}
+				return true, ""
+			}
+			for _, f := range c.P.FuncsIn(modPath + "/core/flow") {
+				if isTestOrExample(f) || f.Blocks == nil || strings.HasPrefix(f.Name(), "New") {
+					continue
+				}
+				k := 0
+				for _, ci := range callsIn(f) {
+					an, ok := atomicFuncName(ci)
+					if !ok || len(ci.Common().Args) < 2 || !isCell(ci.Common().Args[0]) {
+						continue
+					}
+					args := ci.Common().Args
+					switch an {
+					case "StoreInt64", "CompareAndSwapInt64":
+						n++
+						k++
+						v := args[len(args)-1]
+						good, why := okValue(v, ci.Block(), nil, 0)
+						c.Check(good, fmt.Sprintf("%s / %s#%d", fnKey(f), an, k), ci.Pos(), "the balance published here is never negative (%s)", why)
+					case "AddInt64":
+						n++
+						k++
+						key := fmt.Sprintf("%s / %s#%d", fnKey(f), an, k)
+						if d, isK := constInt(stripConv(args[1])); isK && d >= 0 {
+							c.Hold(key, ci.Pos(), "adds the constant %d", d)
+							continue
+						}
+						res, _ := ci.(ssa.Value)
+						good := false
+						if res != nil {
+							eachInstr(f, func(ins ssa.Instruction) {
+								ifi, ok := ins.(*ssa.If)
+								if !ok || good {
+									return
+								}
+								for e := 0; e < 2; e++ {
+									cc := canonCond(ifi.Cond, e == 0)
+									rp := accessPath(res)
+									if cc != rp+" < 0" && cc != rp+" <= -1" {
+										continue
+									}
+									s := ifi.Block().Succs[e]
+									if len(s.Instrs) == 0 {
+										continue
+									}
+									hit := func(x ssa.Instruction) bool {
+										c2, ok := x.(ssa.CallInstruction)
+										if !ok {
+											return false
+										}
+										a2, ok := atomicFuncName(c2)
+										if !ok || a2 != "StoreInt64" || !isCell(c2.Common().Args[0]) {
+											return false
+										}
+										z, isZ := constInt(c2.Common().Args[1])
+										return isZ && z == 0
+									}
+									if hit(s.Instrs[0]) {
+										good = true
+									} else if okh, _ := allPathsHit(s.Instrs[0], hit, nil); okh {
+										good = true
+									}
+								}
+							})
+						}
+						c.Check(good, key, ci.Pos(), "after the in-place subtraction the branch `result < 0` resets the balance to 0 on every path")
+					}
+				}
+			}
+			if n == 0 {
+				c.AnchorLost("atomic writes of WarmUpTrafficShapingCalculator.storedTokens")
+			}
+		},
+	})
+}
